@@ -188,6 +188,14 @@ def check_fragments(ctx, st, pt, parse0, c, frags):
         exp_mass = m_full if prec is None else round(m_full, prec)
         exp_mz = m_full / f.charge if prec is None else round(exp_mass / f.charge, prec)
         bad = []
+        if prec is not None:
+            # a requested precision means the reported values ARE rounded to it (0 decimals included)
+            for what_, v_ in (('mass', f.mass), ('mz', f.mz)):
+                if abs(round(v_, prec) - v_) > 1e-9 and ('round', what_) not in reported:
+                    reported.add(('round', what_))
+                    ctx.violation('value-not-rounded-to-requested-precision',
+                                  {'text': c['text'], 'request': req, 'ion': (f.ion_type, f.start, f.end, f.charge),
+                                   'what': what_, 'observed': v_, 'precision': prec})
         if abs(f.mass - exp_mass) > tol + band:
             bad.append(('mass', f.mass, exp_mass))
         if abs(f.mz - exp_mz) > tol + band / max(1, f.charge):
